@@ -52,6 +52,7 @@ class Ctx:
         self.sigs = set()               # schedule signatures reached
         self.describe = {"operations": [], "schedules": [], "faults": [], "damage": []}
         self.pools = []
+        self.pool_src = None            # optional separate source for schedule draws
         self.pool_seq = 0
         self.op_seq = 0
         # audit monitor
@@ -89,8 +90,11 @@ class Ctx:
             return "$S" + ap[len(self.scratch):]
         return ap
 
+    def clean(self, text):
+        return str(text).replace(self.scratch, "$S")
+
     def ev(self, *parts):
-        self.events.append(" ".join(str(p) for p in parts))
+        self.events.append(self.clean(" ".join(str(p) for p in parts)))
         self.steps += 1
         if self.steps > self.step_cap:
             raise HarnessError("step cap exceeded")
@@ -134,6 +138,25 @@ def _path_of(x):
     return os.path.abspath(p)
 
 
+_DIRFD_LAST = ("os.mkdir", "os.remove", "os.rmdir", "os.chmod", "os.utime", "os.chown",
+               "os.mkfifo", "os.mknod", "shutil.rmtree")
+
+
+def _path_at(x, dir_fd):
+    """Path of an audited call that may be relative to a directory descriptor."""
+    if isinstance(dir_fd, int) and not isinstance(dir_fd, bool):
+        try:
+            p = os.fspath(x)
+            if isinstance(p, bytes):
+                p = p.decode("utf8", "replace")
+            if not os.path.isabs(p):
+                base = os.readlink(f"/proc/self/fd/{dir_fd}")
+                return os.path.normpath(os.path.join(base, p))
+        except (TypeError, OSError):
+            return None
+    return _path_of(x)
+
+
 def _audit(event, args):
     ctx = CUR
     if ctx is None or not ctx.recording:
@@ -151,7 +174,8 @@ def _audit(event, args):
         elif event in ("os.mkdir", "os.remove", "os.rmdir", "os.truncate", "os.chmod",
                        "os.utime", "os.chown", "shutil.rmtree", "os.chflags", "os.mkfifo",
                        "os.mknod", "os.setxattr", "os.removexattr"):
-            p = _path_of(args[0])
+            dir_fd = args[-1] if event in _DIRFD_LAST and len(args) >= 2 else None
+            p = _path_at(args[0], dir_fd)
             if p is not None:
                 ctx.writes.append((ctx.actor, event, p))
         elif event in ("os.rename", "os.link", "os.symlink", "shutil.copyfile", "shutil.move",
@@ -426,6 +450,7 @@ def run_tool(ctx, fn, cwd=None, argv=None, drain=True, label=None):
     exceptions of the tool; HarnessError passes through)."""
     ctx.op_seq += 1
     if label:
+        label = ctx.clean(label)
         ctx.ev("op", ctx.op_seq, label)
         ctx.describe["operations"].append(label)
     env = tool_env(ctx, cwd=cwd, argv=argv)
